@@ -17,7 +17,9 @@ for pid in ALL:
         'replay_cmd_template': './check --replay {path}',
         'engine': 'verus-units+kani-units',
         'level_claimed': {'category': c['level'], 'text': c['claim'], 'design_ref': c.get('design_ref', 'DESIGN.md §5')},
-        'level_note': '; '.join(c.get('assumptions', [])) or 'see evidence trusted_base',
+        'level_note': ('; '.join(c.get('assumptions', [])) or 'see evidence trusted_base')
+                      + ('; BOUNDED stand-ins run next to the proofs and are never counted as proved (evidence: bounded_checks): native execution of the real code '
+                         'against its contract over an enumerated bound (%s) as counterexample finder' % ', '.join(c['native']) if c.get('native') else ''),
         'technique': c.get('technique', 'contract-based deductive verification: Verus on mechanically extracted real functions + Kani contract harnesses on the real crate'),
     })
 na = [{'property_id': p, 'reason': NOT_APPLICABLE[p]} for p in ALL if p not in PROPS]
@@ -34,6 +36,8 @@ m = {
     'engines': [
         {'name': 'verus-units', 'path': 'lib/assemble.py lib/verus_run.py units/verus', 'serves_properties': [p for p in ALL if p in PROPS and PROPS[p].get('verus')],
          'kind_free_text': 'mechanical extraction of real function bodies + contracts spliced at structural anchors, discharged by Verus/Z3'},
+        {'name': 'native-bounded', 'path': 'lib/native_run.py units/native', 'serves_properties': [p for p in ALL if p in PROPS and PROPS[p].get('native')],
+         'kind_free_text': 'BOUNDED stand-in, never counted as proved: the real functions executed natively against their contract as an oracle over an enumerated, stated bound; yields the concrete failing input that Verus cannot give'},
         {'name': 'kani-units', 'path': 'lib/kani_run.py units/kani', 'serves_properties': [p for p in ALL if p in PROPS and PROPS[p].get('kani')],
          'kind_free_text': 'contract harnesses appended under cfg(kani) to a scratch copy of the real crate, discharged by Kani/CBMC; concrete playback for counterexamples'},
     ],
